@@ -436,19 +436,19 @@ package pokerface
 // package-level tables of package combination and write to nothing that existed before (frame obligation:
 // a store through an alias of a table is a write to pre-existing memory).
 //@ func NewStardardGameOptions() (opts)
-//@   props C03
+//@   props C03 C07
 //@   modifies nothing
 //@   allocs GameOptions, elems(string), elems(*PlayerSetting)
-//@   ensures [C03] opts != nil && fresh(opts) && sameslice(opts.CombinationPowers, combination.CombinationPowerStandard)
+//@   ensures [C03 C07] opts != nil && fresh(opts) && sameslice(opts.CombinationPowers, combination.CombinationPowerStandard)
 //@   ensures opts.HoleCardsCount == 2 && opts.RequiredHoleCardsCount == 0 && opts.BurnCount == 1 && opts.Limit == "no"
 //@   ensures opts.Ante == 0 && opts.Blind.Dealer == 0 && opts.Blind.SB == 5 && opts.Blind.BB == 10
 //@   ensures len(opts.Deck) == 0 && len(opts.Players) == 0
 
 //@ func NewShortDeckGameOptions() (opts)
-//@   props C03
+//@   props C03 C07
 //@   modifies nothing
 //@   allocs GameOptions, elems(string), elems(*PlayerSetting)
-//@   ensures [C03] opts != nil && fresh(opts) && sameslice(opts.CombinationPowers, combination.CombinationPowerShortDeck)
+//@   ensures [C03 C07] opts != nil && fresh(opts) && sameslice(opts.CombinationPowers, combination.CombinationPowerShortDeck)
 //@   ensures opts.HoleCardsCount == 2 && opts.RequiredHoleCardsCount == 0 && opts.BurnCount == 1 && opts.Limit == "no"
 
 // ---------------------------------------------------------------------------
@@ -466,7 +466,7 @@ package pokerface
 //@ pred AFTERACTION(g) = WAITINV(g) && (g.gs.Status.CurrentEvent == "RoundStarted" || g.gs.Status.CurrentEvent == "RoundClosed")
 
 //@ func (*player).Pass(p) (err)
-//@   props C04 C11
+//@   props C04 C11 C07
 //@   requires WFP(p) && WAITINV(p.game)
 //@   modifies @ACTION
 //@   allocs Action, elems(string), elems(Player), settlement.Result
@@ -476,7 +476,7 @@ package pokerface
 //@             && p.game.gs.Status.PreviousRaiseSize == old(p.game.gs.Status.PreviousRaiseSize)
 
 //@ func (*player).Fold(p) (err)
-//@   props C04 C11
+//@   props C04 C11 C07
 //@   requires WFP(p) && WAITINV(p.game)
 //@   modifies @ACTION
 //@   allocs Action, elems(string), elems(Player), settlement.Result
@@ -485,7 +485,7 @@ package pokerface
 //@             && p.game.gs.Status.PreviousRaiseSize == old(p.game.gs.Status.PreviousRaiseSize)
 
 //@ func (*player).Check(p) (err)
-//@   props C04 C11
+//@   props C04 C11 C07
 //@   requires WFP(p) && WAITINV(p.game)
 //@   modifies @ACTION
 //@   allocs Action, elems(string), elems(Player), settlement.Result
@@ -494,7 +494,7 @@ package pokerface
 //@             && p.game.gs.Status.PreviousRaiseSize == old(p.game.gs.Status.PreviousRaiseSize)
 
 //@ func (*player).Call(p) (err)
-//@   props C04 C11 C12 C01
+//@   props C04 C11 C12 C01 C07
 //@   requires WFP(p) && WAITINV(p.game)
 //@   modifies @ACTION
 //@   allocs Action, elems(string), elems(Player), settlement.Result
@@ -505,7 +505,7 @@ package pokerface
 //@             && p.game.gs.Status.PreviousRaiseSize == old(p.game.gs.Status.PreviousRaiseSize)
 
 //@ func (*player).Allin(p) (err)
-//@   props C04 C11 C12 C01
+//@   props C04 C11 C12 C01 C07
 //@   requires WFP(p) && WAITINV(p.game)
 //@   modifies @ACTION
 //@   allocs Action, elems(string), elems(Player), settlement.Result
@@ -516,7 +516,7 @@ package pokerface
 //@             && p.game.gs.Status.PreviousRaiseSize >= old(p.game.gs.Status.PreviousRaiseSize)
 
 //@ func (*player).Bet(p, chips) (err)
-//@   props C04 C11 C12 C01
+//@   props C04 C11 C12 C01 C07
 //@   requires WFP(p) && WAITINV(p.game)
 //@   modifies @ACTION
 //@   allocs Action, elems(string), elems(Player), settlement.Result
@@ -529,7 +529,7 @@ package pokerface
 //@   ensures [C12] chips < 0 ==> err == ErrInvalidAction && UNCH()
 
 //@ func (*player).Raise(p, chipLevel) (err)
-//@   props C04 C12 C01
+//@   props C04 C12 C01 C07
 //@   requires WFP(p) && WAITINV(p.game)
 //@   modifies @ACTION
 //@   allocs Action, elems(string), elems(Player), settlement.Result
@@ -553,7 +553,7 @@ package pokerface
 //@             && p.game.gs.Status.PreviousRaiseSize >= old(p.game.gs.Status.PreviousRaiseSize)
 
 //@ func (*player).Pay(p, chips) (err)
-//@   props C04 C12
+//@   props C04 C12 C07
 //@   requires WFP(p) && WAITINV(p.game)
 //@   modifies @ACTION
 //@   allocs Action, elems(string), elems(Player), settlement.Result
@@ -672,7 +672,7 @@ package pokerface
 //@     PlayerState.VPIP, CombinationInfo, Action, @POTS, @SETTLE
 
 //@ func (*game).ReadyForAll(g) (err)
-//@   props C04 C06
+//@   props C04 C06 C07
 //@   requires WAITINV(g)
 //@   modifies @OPS
 //@   allocs elems(string), elems(Player), settlement.Result, Action
@@ -680,7 +680,7 @@ package pokerface
 //@   ensures [C06] old(g.gs.Status.CurrentEvent) == "ReadyRequested" ==> err == nil && WAITINV(g)
 
 //@ func (*game).Next(g) (err)
-//@   props C04 C06 C14
+//@   props C04 C06 C14 C07
 //@   requires WAITINV(g)
 //@   modifies @OPS
 //@   allocs elems(string), elems(Player), settlement.Result, Action
@@ -708,7 +708,7 @@ package pokerface
 //@      && g.gs.Players[i].InitialStackSize == g.gs.Players[i].Bankroll
 
 //@ func (*game).Start(g) (err)
-//@   props C06 C04 C14
+//@   props C06 C04 C14 C07
 //@   requires WFG0(g) && FRESHPLAYERS(g)
 //@   requires g.gs.Status.Round == "" && g.gs.Status.CurrentDeckPosition == 0 && g.gs.Status.CurrentPlayer == 0 && g.gs.Status.CurrentWager == 0
 //@             && g.gs.Status.CurrentRoundPot == 0 && g.gs.Status.PreviousRaiseSize == 0
@@ -743,7 +743,7 @@ package pokerface
 //@                 && p.game.gs.Status.CurrentRoundPot == old(p.game.gs.Status.CurrentRoundPot) + p.state.Wager - old(p.state.Wager)
 
 //@ func (*game).PayAnte(g) (err)
-//@   props C13 C04 C06 C01
+//@   props C13 C04 C06 C01 C07
 //@   requires WAITINV(g)
 //@   modifies @OPS
 //@   allocs elems(string), elems(Player), settlement.Result, Action
@@ -776,7 +776,7 @@ package pokerface
 //@             && p.game.gs.Status.CurrentRoundPot == old(p.game.gs.Status.CurrentRoundPot) + p.state.Wager - old(p.state.Wager)
 
 //@ func (*game).PayBlinds(g) (err)
-//@   props C13 C04 C06 C01 C12
+//@   props C13 C04 C06 C01 C12 C07
 //@   requires WAITINV(g)
 //@   modifies @OPS
 //@   allocs elems(string), elems(Player), settlement.Result, Action
@@ -798,3 +798,53 @@ package pokerface
 //@             && g.gs.Players[j].Pot == old(g.gs.Players[j].Pot)
 //@   loop 1 invariant STATUSOK(g) && TABLE(g)
 //@             && (g.gs.Status.CurrentWager > 0 ==> (exists j :: 0 <= j && j < len(g.gs.Players) && g.gs.Players[j].Wager == g.gs.Status.CurrentWager))
+
+// ---------------------------------------------------------------------------
+// C07: a hand can be resumed from its serialized state
+// ---------------------------------------------------------------------------
+// (1) Everything reachable from the state is carried by encoding/json, except derived data that is rebuilt before it is
+//     read: pot.Pot.Levels (updatePots runs before CalculateGameResults reads the levels: nil-safety obligations of the
+//     SettlementRequested handler) and the scratch fields of the settlement result, which are written and read only
+//     inside one CalculateGameResults call.
+//@ jsonclosed GameState except pot.Pot.Levels, settlement.PotResult.rank, settlement.PotResult.level, settlement.PotResult.oddChips props C07
+
+// (2) What the game object keeps outside the state (player objects, dealer / blind seat caches) is a function of the
+//     state: rebuilding establishes exactly REP, and no operation ever writes those fields or the positions they are
+//     derived from (frame obligations of every operation; C07 is listed in their props for that reason).
+//@ pred STATEIN(gs) = gs != nil && (forall i :: 0 <= i && i < len(gs.Players) ==> gs.Players[i] != nil && gs.Players[i].Idx == i)
+//@    && (forall i, j :: 0 <= i && i < j && j < len(gs.Players) ==> gs.Players[i] != gs.Players[j])
+// the cache c is the last seat (below n) whose positions contain pos, nil when there is none
+//@ pred CACHE(g, c, pos, n) = (c == nil <==> (forall i :: 0 <= i && i < n ==> !hasStr(g.gs.Players[i].Positions, pos)))
+//@    && (c != nil ==> 0 <= c.idx && c.idx < n && g.players[c.idx] == c && hasStr(g.gs.Players[c.idx].Positions, pos)
+//@          && (forall i :: c.idx < i && i < n ==> !hasStr(g.gs.Players[i].Positions, pos)))
+//@ pred REPN(g, n) = g.players != nil && (forall i :: 0 <= i && i < n ==> in(i, g.players) && g.players[i] != nil
+//@          && g.players[i].idx == i && g.players[i].game == g && g.players[i].state == g.gs.Players[i])
+//@    && CACHE(g, g.dealer, "dealer", n)
+
+//@ func (*game).addPlayer(g, state) (err)
+//@   props C07
+//@   requires g != nil && g.players != nil && state != nil
+//@   modifies g.dealer, g.smallBlind, g.bigBlind, map(map[int]Player)
+//@   allocs player
+//@   ensures err == nil && in(state.Idx, g.players) && g.players[state.Idx] != nil && fresh(g.players[state.Idx])
+//@   ensures g.players[state.Idx].idx == state.Idx && g.players[state.Idx].game == g && g.players[state.Idx].state == state
+//@   ensures forall k :: k != state.Idx ==> (in(k, g.players) <==> old(in(k, g.players))) && g.players[k] == old(g.players[k])
+//@   ensures g.dealer == ite(hasStr(state.Positions, "dealer"), g.players[state.Idx], old(g.dealer))
+//@   ensures g.smallBlind == ite(hasStr(state.Positions, "sb"), g.players[state.Idx], old(g.smallBlind))
+//@   ensures g.bigBlind == ite(!hasStr(state.Positions, "sb") && hasStr(state.Positions, "bb"), g.players[state.Idx], old(g.bigBlind))
+
+//@ func (*game).LoadState(g, gs) (err)
+//@   props C07
+//@   requires g != nil && g.players != nil && STATEIN(gs) && g.dealer == nil && g.smallBlind == nil && g.bigBlind == nil
+//@   modifies g.gs, g.dealer, g.smallBlind, g.bigBlind, map(map[int]Player)
+//@   allocs player
+//@   ensures [C07] err == nil && g.gs == gs && REPN(g, len(gs.Players))
+//@   loop 1 invariant g.gs == gs && REPN(g, rangeindex + 1)
+
+//@ func NewGameFromState(gs) (g)
+//@   props C07
+//@   requires STATEIN(gs)
+//@   -- (coarse frame: LoadState's contract names the player-map arrays as a whole)
+//@   modifies map(map[int]Player)
+//@   allocs game, player
+//@   ensures [C07] g != nil && fresh(g) && g.gs == gs && REPN(g, len(gs.Players))
